@@ -617,4 +617,4 @@ MANIFEST = dict(
     technique="Lean 4 proof (case analysis + list induction over arbitrary sizes) + exhaustive-window "
               "model/implementation correspondence + direct oracle",
 )
-READY = False
+READY = True
